@@ -7,7 +7,11 @@ Node encoding (JSON-able):
   {"t": "Tag", "n": node|None}       tagged node (None = bare tag)
   {"a": "name", "n": node}           anchor definition
   {"r": "name"}                      alias
+  {"y": kind, "v": spec}             other native YAML types: binary (str), date "YYYY-MM-DD", datetime "YYYY-MM-DD hh:mm:ss",
+                                     set [str...], omap / pairs [[str, int]...]
 """
+import base64
+import datetime
 import json
 import re
 
@@ -36,7 +40,34 @@ def scalar_text(v, allow_plain=True):
         return r
     if allow_plain and _PLAIN.match(v) and v.lower() not in _RESERVED:
         return v
+    if v == "<<":  # the merge key is only a merge key when it is plain
+        return v
     return json.dumps(v, ensure_ascii=False)
+
+
+def typed_text(node):
+    kind, v = node["y"], node["v"]
+    if kind == "binary":
+        return '!!binary "%s"' % base64.b64encode(v.encode("utf-8")).decode("ascii")
+    if kind in ("date", "datetime"):
+        return v
+    if kind == "set":
+        return "!!set {" + ", ".join("? " + scalar_text(k, False) for k in v) + "}"
+    return "!!%s [" % kind + ", ".join("{%s: %d}" % (scalar_text(k, False), n) for k, n in v) + "]"
+
+
+def typed_value(node):
+    kind, v = node["y"], node["v"]
+    if kind == "binary":
+        return v.encode("utf-8")
+    if kind == "date":
+        return datetime.date(*map(int, v.split("-")))
+    if kind == "datetime":
+        d, t = v.split(" ")
+        return datetime.datetime(*map(int, d.split("-") + t.split(":")))
+    if kind == "set":
+        return set(v)
+    return [(k, n) for k, n in v]
 
 
 def _render(node, indent, inflow):
@@ -44,6 +75,8 @@ def _render(node, indent, inflow):
     pad = " " * indent
     if "s" in node:
         return scalar_text(node["s"]), "", []
+    if "y" in node:
+        return typed_text(node) + (" " if inflow else ""), "", []
     if "x" in node:  # raw inline (flow style) text, e.g. a python/* tagged node
         return node["x"] + (" " if inflow else ""), "", []
     if "mk" in node:  # mapping with complex keys: always flow style
@@ -99,7 +132,10 @@ def emit_document(root, directives=""):
     inline, prefix, lines = _render(root, 0, False)
     if inline is not None:
         return head + inline + "\n"
-    return head + ("--- " + prefix + "\n" if prefix and not head else "") + "\n".join(lines) + "\n"
+    if prefix and head:
+        head = directives + "\n--- " + prefix + "\n"
+        prefix = ""
+    return head + ("--- " + prefix + "\n" if prefix else "") + "\n".join(lines) + "\n"
 
 
 # ---------------------------------------------------------------------------- strategies
@@ -112,7 +148,17 @@ KEYS = ["a", "b", "c", "key", "name", "x1", "interval", "two words", "yes", "0",
 
 def value_nodes(tags=(), max_leaves=8):
     """strategy for value nodes; tags: list of (tagname, forms) usable inside values"""
-    leaf = scalars.map(lambda v: {"s": v})
+    word = st.sampled_from(["a", "b", "low", "high", "two words", "ünï", "0"])
+    typed = st.one_of(
+        st.sampled_from(["hello", "", "ünï ✓", "\x00\x01"]).map(lambda v: {"y": "binary", "v": v}),
+        st.sampled_from(["2001-12-14", "1999-01-01"]).map(lambda v: {"y": "date", "v": v}),
+        st.sampled_from(["2001-12-14 21:59:43", "2024-02-29 00:00:00"]).map(lambda v: {"y": "datetime", "v": v}),
+        st.lists(word, unique=True, max_size=3).map(lambda v: {"y": "set", "v": v}),
+        st.lists(st.tuples(word, st.integers(0, 9)), unique_by=lambda kv: kv[0], max_size=3).map(lambda v: {"y": "omap", "v": [list(kv) for kv in v]}),
+        st.lists(st.tuples(word, st.integers(0, 9)), max_size=3).map(lambda v: {"y": "pairs", "v": [list(kv) for kv in v]}),
+    )
+    leaf = st.one_of(scalars.map(lambda v: {"s": v}), scalars.map(lambda v: {"s": v}), scalars.map(lambda v: {"s": v}),
+                     scalars.map(lambda v: {"s": v}), scalars.map(lambda v: {"s": v}), typed)
 
     def extend(children):
         opts = [
@@ -135,7 +181,7 @@ def add_anchors(node, draw, counter=None, defined=None):
     """post-process: turn some container nodes into anchors and reuse them later as aliases (document order)"""
     if counter is None:
         counter, defined = [0], []
-    if "s" in node or "r" in node:
+    if "s" in node or "r" in node or "y" in node:
         if defined and draw(st.integers(0, 7)) == 0:
             return {"r": draw(st.sampled_from(defined))}
         return node
@@ -176,6 +222,8 @@ def to_python(node, tag_factory=None, anchors=None):
         anchors = {}
     if "s" in node:
         return node["s"]
+    if "y" in node:
+        return typed_value(node)
     if "r" in node:
         return anchors[node["r"]]
     if "a" in node:
